@@ -292,10 +292,10 @@ class TorState(object):
             kw['dirport'],
         )
         router.flags = kw.get('flags', [])
-        if 'bandwidth' in kw:
-            router.bandwidth = kw['bandwidth']
-        if 'ip_v6' in kw:
-            router.ip_v6.extend(kw['ip_v6'])
+        # (a Router object is re-used across consensuses: every
+        # attribute comes from this entry, nothing is kept)
+        router.bandwidth = kw.get('bandwidth', 0)
+        router.ip_v6 = list(kw.get('ip_v6', []))
 
         if 'guard' in router.flags:
             self.guards[router.id_hex] = router
